@@ -833,7 +833,7 @@ def gen_pty_case(rng):
             elif r < 0.25:
                 ops += [['link', hx(b's/' + nm), hx(rng.choice([b'nowhere', b'.', valid_odd_name(rng)]))]]
             else:
-                ops += [['file', hx(b's/' + nm), rng.choice([0, 1, 4096, 70000, 2 ** 20, 2 ** 20 + 1, 2 ** 22 * 3, 2 ** 26, 2 ** 27]), rng.choice([None, 0, 1, 10 ** 18, 2 ** 33 * 10 ** 9])]]
+                ops += [['file', hx(b's/' + nm), rng.choice([0, 1, 4096, 70000, 70000, 2 ** 20, 2 ** 20 + 1, 2 ** 22 * 3, 2 ** 24, 2 ** 26 if rng.random() < 0.5 else 2 ** 20, 2 ** 27 if rng.random() < 0.15 else 5]), rng.choice([None, 0, 1, 10 ** 18, 2 ** 33 * 10 ** 9])]]
             r = rng.random()
             if r < 0.15:
                 ops += [['file', hx(b'd/' + nm), 2, rng.choice([0, 5 * 10 ** 18])]]          # older / newer on the destination
